@@ -560,6 +560,45 @@ def r13g(ctx):
                        f"name has been looked up for deletion — the requested name is lost, the other name may now exist twice, and the returned name finds another style")
 
 
+def r13h(ctx):
+    """A style is looked up by family and name, and a style handed in as an object is judged by itself.
+
+    Styles are unique by family + name: `T1` of family "text" and `T1` of family "paragraph" are two styles of one container.  Every
+    lookup — and the "is there one to replace" question of insert_style and merge_styles_from — ends in Element.get_style, which must
+    hand the family to the filtered query whenever it has one (the tag alone does not tell the families of style:style apart).  When the
+    caller passes a style object instead of a name, the object's own style:name is what shows it is a style.
+    """
+    repo = ctx.repo
+    ctx.rule("R13h", "Element.get_style filters by the family it was given, and reads the name of the style object it was given", floor=2)
+    f = repo.func("Element.get_style")
+    fam = "family"
+    rebound = [a for a in walk_no_nested(f.node) if isinstance(a, ast.Assign) and any(isinstance(t, ast.Name) and t.id == fam for t in a.targets)]
+    calls_ = [c for c in walk_no_nested(f.node) if isinstance(c, ast.Call) and call_name(c) in ("_filtered_element", "_filtered_elements")]
+    if not calls_:
+        raise AnalysisError("R13h: Element.get_style no longer ends in a filtered lookup")
+    for c in calls_:
+        kw = {k.arg: k.value for k in c.keywords if k.arg}
+        v = kw.get("family")
+        ok = isinstance(v, ast.Name) and v.id == fam and not rebound
+        ctx.instance("R13h", f"{f.file}:{f.ident}", f"`{norm(c, 40)}` is given family={norm(v, 20) if v is not None else 'nothing'}", ok=ok, nontrivial=True, line=c.lineno)
+        if not ok:
+            ctx.report("R13h", f, c, norm(c, 60),
+                       f"Element.get_style hands `{norm(v, 30) if v is not None else 'no family'}` to the filtered lookup instead of the family it was asked for: a style of another family "
+                       f"with the same name is found (and, through insert_style and merge_styles_from, deleted as the one to replace)")
+    # the object branch
+    obj = [a for a in walk_no_nested(f.node) if isinstance(a, ast.Assign) and isinstance(a.value, ast.Call) and call_name(a.value).startswith("get_attribute")
+           and a.value.args and repo.fold(a.value.args[0], f.module) == "style:name"]
+    for a in obj:
+        recv = a.value.func.value if isinstance(a.value.func, ast.Attribute) else None
+        gs = [t for t, pol in structural_guards(a, stop=f.node) if pol and isinstance(t, ast.Call) and call_name(t) == "isinstance" and t.args and isinstance(t.args[0], ast.Name)]
+        want = gs[0].args[0].id if gs else None
+        ok = want is None or (isinstance(recv, ast.Name) and recv.id == want)
+        ctx.instance("R13h", f"{f.file}:{f.ident}", f"`{norm(a, 50)}` reads the name of the object under test", ok=ok, nontrivial=True, line=a.lineno)
+        if not ok:
+            ctx.report("R13h", f, a, norm(a, 60), f"under `isinstance({want}, …)` the style name is read from `{norm(recv, 20)}`, not from `{want}`: a style passed as an object is "
+                       f"judged by the container the lookup runs on and refused")
+
+
 def run(ctx):
     r13ab(ctx)
     r13c(ctx)
@@ -567,6 +606,7 @@ def run(ctx):
     r13e(ctx)
     r13f(ctx)
     r13g(ctx)
+    r13h(ctx)
 
 
 from ..selftest import Seed, unparse_seed  # noqa: E402
@@ -574,6 +614,11 @@ from ..selftest import Seed, unparse_seed  # noqa: E402
 _DOC = "src/odfdo/document.py"
 _ST = "src/odfdo/styles.py"
 SEEDS = [
+    Seed("Element.get_style drops the family when a name is given", "fault", "src/odfdo/element.py",
+         "                style_name=style_name,\n                display_name=display_name,\n                family=family,\n            )",
+         "                style_name=style_name,\n                display_name=display_name,\n                family=family if is_default else None,\n            )", "R13h"),
+    Seed("Element.get_style reads the name of the container again", "fault", "src/odfdo/element.py",
+         '            name = name_or_element.get_attribute("style:name")', '            name = self.get_attribute("style:name")', "R13h"),
     Seed("automatic branch repeats the naming only when the style has no name (redundant after the central write)", "neutral", _DOC, '            if hasattr(style, "name"):\n                style.name = name', '            if hasattr(style, "name") and not style.name:\n                style.name = name'),
     Seed("insert_style no longer writes a given name onto the style", "fault", _DOC,
          '        elif not default and hasattr(style_element, "name"):\n            # the style is stored under the name it is looked up by\n            style_element.name = name\n', '', "R13g"),
